@@ -13,6 +13,7 @@ kinds: lane (List Rat) | scal (Rat) | bool (Bool) | mask (List Bool) | olane (Li
 from __future__ import annotations
 
 import ast
+import re
 from fractions import Fraction
 
 from pyexpr import Untranslatable
@@ -23,6 +24,13 @@ LEAN_TY = {"lane": "List Rat", "scal": "Rat", "bool": "Bool", "mask": "List Bool
 # (function, result kind): the 1-D helpers and the axis-taking estimators
 TARGETS = [("_scale_iqr", "scal"), ("_scale_mad", "scal"), ("_scale_doublemad", "lane"), ("_scale_qn_1d", "scal"),
            ("_scale_sn_1d", "scal"), ("_scale_gapper_1d", "scal")]
+
+
+# NumPy functions that return a fresh value and have no side effect (used to decide which extra temporaries of a
+# refactored source may be substituted before translation)
+NP_PURE = frozenset({"np.arange", "np.abs", "np.median", "np.mean", "np.sort", "np.diff", "np.percentile", "np.isclose",
+                     "np.where", "np.nanmedian", "np.nanmean", "np.sqrt", "np.dot", "np.partition", "np.triu_indices",
+                     "np.squeeze", "np.any", "np.subtract"})
 
 
 def rat(x) -> str:
@@ -146,10 +154,16 @@ class Lane:
                 (t1, k1), (t2, k2) = self.ex(a[0]), self.ex(a[1])
                 if {k1, k2} <= {"lane", "natlane"}:
                     return f"(Np.dot {t1} {t2})", "scal"
+            if f == "np.subtract" and len(a) == 2 and all(k.arg == "dtype" for k in n.keywords):
+                return self.ex(ast.BinOp(left=a[0], op=ast.Sub(), right=a[1]))
             if f == "np.where" and len(a) == 3:
                 c, kc = self.ex(a[0])
                 if kc == "bool":
                     (t1, k1), (t2, k2) = self.ex(a[1]), self.ex(a[2])
+                    if k1 == "nat":
+                        t1, k1 = f"(({t1} : Nat) : Rat)", "scal"
+                    if k2 == "nat":
+                        t2, k2 = f"(({t2} : Nat) : Rat)", "scal"
                     if k1 == k2 == "scal":
                         return f"(Np.whereS {c} {t1} {t2})", "scal"
                 if kc == "mask":
@@ -182,6 +196,11 @@ class Lane:
                     return f"(Np.triu1 {t})", "lane"
             if isinstance(n.value, ast.Name) and sl in (":, None", "(:, None)") and self.kinds.get(base) == "lane":
                 return base, "col"
+            if sl == "::-1":
+                t, k = self.ex(n.value)
+                m = re.fullmatch(r"\(Np\.arangeUp (.+) (\S+)\)", t) if k == "natlane" else None
+                if m:                  # np.arange(a, b)[::-1] is np.arange(b - 1, a - 1, -1)
+                    return f"(Np.arangeDown ({m.group(2)} - (1 : Nat)) ({m.group(1)} - (1 : Nat)))", "natlane"
         if isinstance(n, ast.Compare) and len(n.ops) == 1:
             (t1, k1), (t2, k2) = self.ex(n.left), self.ex(n.comparators[0])
             op = {ast.Lt: "lt", ast.LtE: "le", ast.Gt: "gt", ast.GtE: "ge"}.get(type(n.ops[0]))
@@ -209,9 +228,18 @@ class Lane:
                 return f"(Np.mulV {t1} {t2})", "natlane"
         raise Untranslatable(f"expression `{s}`")
 
-    def translate(self, result_kind: str) -> str:
+    KEEP = {"data", "norm", "norm_aad", "loc", "mad", "is_zero_mad", "aad", "percentiles", "diff", "data_left", "data_right",
+            "mad_left", "mad_right", "mad_mid", "n", "h", "k", "diffs", "gaps", "weights", "zero_scales", "zscores", "scale"}
+
+    def translate(self, result_kind: str, body=None) -> str:
+        import normalize
         self.n_is_len = False
-        body = [s for s in self.fn.body if not (isinstance(s, ast.Expr) and isinstance(s.value, ast.Constant))]
+        if body is None:
+            # locals the reference translation does not know are substituted first (the bridge sees through
+            # renamed locals by itself)
+            self.fn = normalize.inline_temps(self.fn, keep=self.KEEP, extra_pure=NP_PURE)
+        body = body if body is not None else self.fn.body
+        body = [s for s in body if not (isinstance(s, ast.Expr) and isinstance(s.value, ast.Constant))]
         out: list[str] = []
         ret = None
 
@@ -256,6 +284,18 @@ class Lane:
                 out.append(f"  let {v} : {LEAN_TY[self.kinds[v]]} := if {c} = true then (\n" + "\n".join(inner)
                            + f"\n    {v}) else {v}")
                 continue
+            if isinstance(st, ast.Expr) and isinstance(st.value, ast.Call) and ast.unparse(st.value.func) == "np.divide" \
+                    and len(st.value.args) == 2 and [k.arg for k in st.value.keywords] == ["out"] \
+                    and ast.unparse(st.value.keywords[0].value) == ast.unparse(st.value.args[0]) \
+                    and isinstance(st.value.args[0], ast.Name):
+                assign(st.value.args[0].id, ast.BinOp(left=st.value.args[0], op=ast.Div(), right=st.value.args[1]), "  ")
+                continue
+            if isinstance(st, ast.Return) and isinstance(st.value, ast.Call) and ast.unparse(st.value.func) == "ZScoreResult":
+                kw = {k.arg: k.value for k in st.value.keywords}
+                if set(kw) != {"data", "loc", "scale"} or ast.unparse(kw["loc"]) != "np.asarray(loc)" \
+                        or ast.unparse(kw["scale"]) != "np.asarray(scale)":
+                    raise Untranslatable(f"`{src[:70]}`")
+                st = ast.Return(value=kw["data"])
             if isinstance(st, ast.Return):
                 t, k = self.ex(st.value)
                 if k != result_kind:
@@ -351,28 +391,30 @@ def translate_dispatch(tree: ast.Module) -> list[tuple[str, str | Untranslatable
         fn = fns["estimate_zscore"]
         srcs = [ast.unparse(s).replace(" ", "") for s in fn.body
                 if not (isinstance(s, ast.Expr) and isinstance(s.value, ast.Constant))]
-        need = ["zero_scales=np.isclose(scale,0)",
-                "ifnp.any(zero_scales):\nscale=np.where(zero_scales,1,scale)",
-                "zscores=np.subtract(data,loc,dtype=np.float32)",
-                "np.divide(zscores,scale,out=zscores)"]
-        joined = [x.replace("\n    ", "\n") for x in srcs]
-        for want in need:
-            if want not in joined:
-                raise Untranslatable(f"estimate_zscore: `{want}` not found")
-        i = [joined.index(w) for w in need]
-        if i != sorted(i):
-            raise Untranslatable("estimate_zscore: statements out of order")
         loc_ok = any("np.zeros(1,dtype=data.dtype)ifloc_method=='norm'elseestimate_loc(data,loc_method,axis,keepdims=True)" in x for x in srcs)
         sc_ok = any("np.ones(1,dtype=data.dtype)ifscale_method=='norm'elseestimate_scale(data,scale_method,axis,keepdims=True)" in x for x in srcs)
         if not (loc_ok and sc_ok):
             raise Untranslatable("estimate_zscore: loc / scale selection not recognised")
-        out.append(("zscore", "/-- `estimate_zscore` on one lane: a zero scale estimate (`np.isclose(scale, 0)`) is replaced by 1, then "
-                              "`(data - loc) / scale`; `\"norm\"` fixes the location at 0 / the scale at 1 -/\n"
-                              "def zscoreLane (loc scale : Rat) (data : List Rat) : List Rat :=\n"
-                              "  let zero_scales : Bool := Np.isclose0 scale\n"
-                              "  let scale : Rat := if zero_scales = true then Np.whereS zero_scales 1 scale else scale\n"
-                              "  Np.divS (Np.subS data loc) scale\n"
-                              "def normLoc : Rat := 0\ndef normScale : Rat := 1\n"))
+        # everything after the scale estimate, statement by statement, on one lane
+        idx = next((i for i, s in enumerate(fn.body) if isinstance(s, ast.Assign) and isinstance(s.targets[0], ast.Name)
+                    and s.targets[0].id == "scale"), None)
+        if idx is None:
+            raise Untranslatable("estimate_zscore: no scale estimate")
+        import copy
+        tail_fn = copy.deepcopy(fn)
+        tail_fn.body = fn.body[idx + 1:]
+        import normalize
+        tail_fn = normalize.inline_temps(tail_fn, keep=Lane.KEEP, extra_pure=NP_PURE)
+        ln = Lane(tail_fn, takes_axis=True)
+        ln.kinds.update(loc="scal", scale="scal")
+        ln.fn.args.args = [ast.arg(arg="data"), ast.arg(arg="axis")]
+        text, params = ln.translate("lane", body=tail_fn.body)
+        if params:
+            raise Untranslatable("estimate_zscore: unexpected constants")
+        text = text.replace(f"def {fn.name} (data : List Rat)", "def zscoreLane (loc scale : Rat) (data : List Rat)")
+        out.append(("zscore", "/-- `estimate_zscore` on one lane, from the scale estimate on: a zero scale estimate "
+                              "(`np.isclose(scale, 0)`) is replaced by 1, then `(data - loc) / scale`; `\"norm\"` fixes the "
+                              "location at 0 / the scale at 1 -/\n" + text + "def normLoc : Rat := 0\ndef normScale : Rat := 1\n"))
     except (Untranslatable, KeyError) as e:
         out.append(("zscore", e if isinstance(e, Untranslatable) else Untranslatable("estimate_zscore not found")))
     return out
